@@ -42,4 +42,12 @@ VARIANTS = [
       "            total_inner = sum(weights[1:-1])\n            weights[1:-1] = [v / total_inner for v in weights[1:-1]]\n"),
     V("C15-n03-variance-abs", "neutral", "                variance[i] = -v\n", "                variance[i] = abs(v)\n", file=GO),
     V("C15-n04-rename-moment", "neutral", "moment_0", "mass", all=True),
+    V("C15-b18-closure-late-binding", "break", "                    def cdf(x, _mu=mu, _sigma=sigma):\n                        return sps.norm.cdf(x, loc=_mu, scale=_sigma)",
+      "                    def cdf(x):\n                        return sps.norm.cdf(x, loc=mu, scale=sigma)", "C15.D8", file=GO),
+    V("C15-b19-fevals-cached-forever", "break", "            self.f_evals = [self.f_model(coord) for coord in self.nodes]\n        else:\n            self.f_evals = [self.f_model(coord) for coord in self.nodes]",
+      "        if self.f_evals is None:\n            self.f_evals = [self.f_model(coord) for coord in self.nodes]", "C15.D9", file=GO),
+    V("C15-n05-fevals-single-store", "neutral", "            self.f_evals = [self.f_model(coord) for coord in self.nodes]\n        else:\n            self.f_evals = [self.f_model(coord) for coord in self.nodes]",
+      "        self.f_evals = [self.f_model(coord) for coord in self.nodes]", file=GO),
+    V("C15-n06-closure-default-renamed", "neutral", "                    def cdf(x, _mu=mu, _sigma=sigma):\n                        return sps.norm.cdf(x, loc=_mu, scale=_sigma)",
+      "                    def cdf(x, m=mu, s=sigma):\n                        return sps.norm.cdf(x, loc=m, scale=s)", file=GO),
 ]
